@@ -2,6 +2,7 @@ package annotations
 
 import (
 	"sort"
+	"strings"
 
 	"google.golang.org/protobuf/compiler/protogen"
 	"google.golang.org/protobuf/proto"
@@ -73,35 +74,30 @@ func CombineHeaders(serviceHeaders, methodHeaders []*http.Header) []*http.Header
 		return serviceHeaders
 	}
 
-	// Create a map to track headers by name for deduplication
+	// Track headers by case-insensitive name for deduplication: HTTP header names are
+	// case-insensitive, and the servers merge the two levels that way.
 	headerMap := make(map[string]*http.Header)
 
 	// Add service headers first
 	for _, header := range serviceHeaders {
 		if header.GetName() != "" {
-			headerMap[header.GetName()] = header
+			headerMap[strings.ToLower(header.GetName())] = header
 		}
 	}
 
 	// Add method headers, overriding service headers with same name
 	for _, header := range methodHeaders {
 		if header.GetName() != "" {
-			headerMap[header.GetName()] = header
+			headerMap[strings.ToLower(header.GetName())] = header
 		}
 	}
 
-	// Get sorted header names for deterministic output
-	headerNames := make([]string, 0, len(headerMap))
-	for name := range headerMap {
-		headerNames = append(headerNames, name)
-	}
-	sort.Strings(headerNames)
-
-	// Build result in sorted order
+	// Build result sorted by header name for deterministic output
 	result := make([]*http.Header, 0, len(headerMap))
-	for _, name := range headerNames {
-		result = append(result, headerMap[name])
+	for _, header := range headerMap {
+		result = append(result, header)
 	}
+	sort.Slice(result, func(i, j int) bool { return result[i].GetName() < result[j].GetName() })
 
 	return result
 }
